@@ -261,7 +261,14 @@ class PythonRegex(regex.Regex):
         if not bracket_content or bracket_content[0] != "^":
             return bracket_content
         # We inverse everything (the leading ^ is not part of the set)
-        excluded = bracket_content[1:]
+        excluded = set(bracket_content[1:])
+        for symbol in bracket_content[1:]:
+            if symbol in RECOMBINE:
+                excluded.add(RECOMBINE[symbol])
+            elif len(symbol) == 2 and symbol[0] == "\\":
+                # An escaped character, under the spelling used in
+                # ESCAPED_PRINTABLES
+                excluded.add(TRANSFORMATIONS.get(symbol[1], symbol[1]))
         res = [x for x in ESCAPED_PRINTABLES if x not in excluded]
         if "\n" not in excluded:
             res.append("\n")
